@@ -784,3 +784,27 @@ Print Assumptions C02_RdBounded_throttled.
 Print Assumptions C02_repair_cut_sound_cursor_src.
 Print Assumptions C02_repair_cut_sound_throttled_src.
 Print Assumptions C02_example_cut_src_premises.
+
+(* ====================================================================================
+   The BLOCK PARSER, translated (work package blockT): gen/Src3b.v holds ArchiveFileBlock::from and
+   ArchiveFileBlockType::try_from statement by statement (tools/src2v3_block.py); it IS Blocks.parse_block for
+   every stream, state, FILENAME_MAX_SIZE and discriminants.  The level-1 translations of the reader, the
+   repair loop and linear_extract call THIS function: "ArchiveFileBlock::from = Blocks.parse_block" is no
+   longer a trusted link.
+   ==================================================================================== *)
+From MLA Require SrcTie3Block SrcTie3RepairLoop.
+From MLAGen Require Src3b.
+Theorem C02_tie_block_from_src :
+  forall (S : Stream) (FNMAX T_START T_CONTENT T_EOA T_EOF : N) (s : st S),
+    Src3b.ArchiveFileBlock_from S FNMAX T_START T_CONTENT T_EOA T_EOF 636 s =
+    parse_block FNMAX T_START T_CONTENT T_EOA T_EOF S s.
+Proof. exact SrcTie3Block.block_from_src. Qed.
+Print Assumptions C02_tie_block_from_src.
+Theorem C02_tie_convert_to_archive_sim_full : ltac:(let t := type of @SrcTie3RepairLoop.convert_to_archive_sim_full in exact t).
+Proof. exact (@SrcTie3RepairLoop.convert_to_archive_sim_full). Qed.
+Print Assumptions C02_tie_convert_to_archive_sim_full.
+Theorem C02_tie_block_from_is_translated : ltac:(let t := type of @SrcTie3RepairLoop.block_from_is_translated in exact t).
+Proof. exact (@SrcTie3RepairLoop.block_from_is_translated). Qed.
+Print Assumptions C02_tie_block_from_is_translated.
+(* a cut inside a name is UnexpectedEof, never a shorter name (seeded C02-m3) *)
+Check SrcTie3Block.block_from_cut_in_name.
